@@ -790,3 +790,20 @@ Proof.
 Qed.
 Lemma rloc_erase_indep L1 L2 p1 p2 e : erase_locs (rloc L1 p1 e) = erase_locs (rloc L2 p2 e).
 Proof. rewrite !rloc_erase. reflexivity. Qed.
+
+(* ---------------------------------------------------------------- UnicodeSane reduces to the external tables *)
+Lemma UnicodeSane_intro X :
+  (forall c, 128 <= c -> x_ws X c = true -> x_alnum X c = false /\ x_alpha X c = false) -> UnicodeSane X.
+Proof.
+  intros H c Hws. unfold is_whitespace in Hws. unfold is_ident, is_ident_start, is_alphanumeric, is_alphabetic.
+  destruct (N.ltb_spec c 128) as [Hlt|Hge].
+  - unfold ascii_ws in Hws.
+    assert (Hc : c = 9 \/ c = 10 \/ c = 11 \/ c = 12 \/ c = 13 \/ c = 32).
+    { apply orb_true_iff in Hws. destruct Hws as [Hr|He].
+      - apply andb_true_iff in Hr. destruct Hr as [H1 H2]. apply N.leb_le in H1, H2. lia.
+      - apply N.eqb_eq in He. lia. }
+    destruct Hc as [-> | [-> | [-> | [-> | [-> | ->]]]]]; split; reflexivity.
+  - destruct (H c Hge Hws) as [Hn Ha]. rewrite Hn, Ha.
+    replace (c =? 95) with false by (symmetry; apply N.eqb_neq; lia).
+    replace (c =? 45) with false by (symmetry; apply N.eqb_neq; lia). split; reflexivity.
+Qed.
